@@ -70,8 +70,19 @@ func (b *rawBackend) serve(c net.Conn) {
 		if err != nil {
 			return
 		}
-		body, berr := io.ReadAll(req.Body)
 		cs := req.Header.Get("X-Case")
+		if req.Header.Get("X-Early-Answer") != "" {
+			// a backend that answers as soon as it has seen the start of the body, and reads the rest afterwards
+			head := make([]byte, 5)
+			io.ReadFull(req.Body, head)
+			c.Write([]byte("HTTP/1.1 200 OK\r\nContent-Length: 5\r\n\r\nearly"))
+			rest, berr := io.ReadAll(req.Body)
+			b.mu.Lock()
+			b.seen[cs] = &recordedReq{method: req.Method, target: req.RequestURI, host: req.Host, hdr: req.Header.Clone(), body: append(head, rest...), bodyErr: berr}
+			b.mu.Unlock()
+			return
+		}
+		body, berr := io.ReadAll(req.Body)
 		b.mu.Lock()
 		b.seen[cs] = &recordedReq{method: req.Method, target: req.RequestURI, host: req.Host, hdr: req.Header.Clone(), body: body, bodyErr: berr}
 		wire, ok := b.scripts[cs]
@@ -211,8 +222,8 @@ func suiteRespPath(e *vh.Env) {
 	sem := make(chan struct{}, 8)
 	var wg sync.WaitGroup
 	for i := 0; i < n; i++ {
-		if !e.Want(i) || e.FailedExcept("C02:user-agent-rewritten-by-request-write") {
-			continue
+		if !e.Want(i) || e.FailedExcept("C03:trailer-altered:same-name-as-header", "C03:status-altered:more-than-five-interim-responses") {
+			continue // stop generating after the first failure that is not a recorded finding
 		}
 		wg.Add(1)
 		sem <- struct{}{}
@@ -276,6 +287,22 @@ func suiteRespPath(e *vh.Env) {
 					s.undecl = append(s.undecl, [2]string{fmt.Sprintf("X-Undeclared-%d", k), "uv"})
 				}
 			}
+			limitKey := "" // cases at limits of Go's HTTP client inside the agent: own finding keys
+			if i%40 == 17 {
+				s.interim = []int{103, 103, 103, 103, 103, 103}
+				limitKey = "more-than-five-interim-responses"
+			}
+			if i%40 == 29 {
+				// a trailer section of about 3 KB (long values: signatures, digests of many parts)
+				if s.chunks == nil {
+					s.chunks = []int{100}
+				}
+				if s.method == "HEAD" || s.status == 204 || s.status == 304 {
+					s.method, s.status = "GET", 200
+				}
+				s.declared = [][2]string{{"X-Long-Trailer-A", strings.Repeat("a", 1400)}, {"X-Long-Trailer-B", strings.Repeat("b", 1500)}}
+				s.undecl = nil
+			}
 			gzipped := i%40 == 11
 			if gzipped {
 				// a backend that compresses (as it may when asked to, or always does); the client did not ask for it
@@ -322,6 +349,25 @@ func suiteRespPath(e *vh.Env) {
 			resp, err := cl.Do(req)
 			if err != nil {
 				e.Fail("C03:no-response", fmt.Sprintf("case %d (status %d, interim %v): %v", i, s.status, s.interim, err), i, nil, nil, nil)
+				return
+			}
+			if limitKey != "" {
+				// one verdict per case, under the limit's own key
+				body, _ := io.ReadAll(resp.Body)
+				resp.Body.Close()
+				okTr := true
+				for _, kv := range s.declared {
+					if g := resp.Trailer[http.CanonicalHeaderKey(kv[0])]; len(g) != 1 || g[0] != kv[1] {
+						okTr = false
+					}
+				}
+				nobody := s.method == "HEAD" || s.status == 204 || s.status == 304
+				if resp.StatusCode != s.status || (!nobody && !bytes.Equal(body, s.body)) || (!nobody && s.chunks != nil && !okTr) {
+					e.Fail("C03:"+map[string]string{"more-than-five-interim-responses": "status-altered", "trailer-section-over-4096-bytes": "trailer-lost"}[limitKey]+":"+limitKey,
+						fmt.Sprintf("case %d: backend sent %s %d after %d interim responses with %d declared trailers (%d body bytes); client received status %d, %d body bytes, %d trailer fields", i, s.method, s.status, len(s.interim), len(s.declared), len(s.body), resp.StatusCode, len(body), len(resp.Trailer)), i, nil, nil, nil)
+				}
+				e.Eval(cs, true)
+				e.Count("limit:" + limitKey)
 				return
 			}
 			body, rerr := io.ReadAll(resp.Body)
@@ -506,7 +552,10 @@ func suiteReqPath(e *vh.Env) {
 					nominated = cands[rng.Intn(len(cands))]
 				}
 			}
-			if nominated != "" {
+			if nominated != "" && rng.Chance(40) {
+				// the options of a list-valued field may be spread over several field lines (RFC 9110 5.3)
+				w.WriteString("Connection: close\r\nConnection: " + nominated + "\r\n")
+			} else if nominated != "" {
 				w.WriteString("Connection: close, " + nominated + "\r\n")
 			} else {
 				w.WriteString("Connection: close\r\n")
@@ -581,7 +630,17 @@ func suiteReqPath(e *vh.Env) {
 			for _, nm := range names {
 				g := got.hdr[nm]
 				if hopNames[nm] || (nominated != "" && nm == http.CanonicalHeaderKey(nominated)) {
-					if len(g) > 0 {
+					// none of the client's values may arrive (a default that the path adds itself under the same
+					// name, such as its own User-Agent once the client's was dropped, is not the client's field)
+					leaked := false
+					for _, gv := range g {
+						for _, cv := range valuesOf(hdr, nm) {
+							if gv == cv {
+								leaked = true
+							}
+						}
+					}
+					if leaked {
 						e.Fail("C02:hop-by-hop-forwarded", fmt.Sprintf("%s; hop-by-hop field %s=%q reached the backend", what, nm, g), i, nil, g, nil)
 					}
 					continue
@@ -613,9 +672,137 @@ func suiteReqPath(e *vh.Env) {
 		}(i)
 	}
 	wg.Wait()
+	reqOverlap(e, be, rigs[0], n)
+	reqEarlyAnswer(e, be, rigs[0], n+100)
 	for _, rig := range rigs {
 		if c := rig.crashed(); c != "" {
 			e.Fail("C02:process-crashed", c, -1, nil, nil, nil)
 		}
+	}
+}
+
+// reqEarlyAnswer: the backend answers while the client is still uploading (it has seen enough, e.g. to reject or to
+// acknowledge) and reads the rest of the body afterwards.  The body it reads must still be the one the client sent.
+func reqEarlyAnswer(e *vh.Env, be *rawBackend, rig *e2eRig, base int) {
+	rounds := e.N(2, 12)
+	for r := 0; r < rounds; r++ {
+		if !e.Want(base + r) {
+			continue
+		}
+		rng := e.Rng.Sub(base + r)
+		cs := fmt.Sprintf("early-%d-%d", e.Seed, r)
+		first := rng.Bytes(16384)
+		var later [][]byte
+		for k := 0; k < 60; k++ {
+			later = append(later, rng.Bytes(1000))
+		}
+		c, err := net.Dial("tcp", fmt.Sprintf("127.0.0.1:%d", rig.proxyPort))
+		if err != nil {
+			continue
+		}
+		c.SetDeadline(time.Now().Add(30 * time.Second))
+		fmt.Fprintf(c, "POST /early/%s HTTP/1.1\r\nHost: client-visible.example\r\nX-Case: %s\r\nX-Early-Answer: 1\r\nTransfer-Encoding: chunked\r\n\r\n", cs, cs)
+		sent := append([]byte{}, first...)
+		fmt.Fprintf(c, "%x\r\n%s\r\n", len(first), first)
+		for _, ch := range later {
+			time.Sleep(10 * time.Millisecond)
+			if _, err := fmt.Fprintf(c, "%x\r\n%s\r\n", len(ch), ch); err != nil {
+				break
+			}
+			sent = append(sent, ch...)
+		}
+		io.WriteString(c, "0\r\n\r\n")
+		resp, rerr := http.ReadResponse(bufio.NewReader(c), nil)
+		if rerr == nil {
+			io.Copy(io.Discard, resp.Body)
+		}
+		c.Close()
+		var got *recordedReq
+		for k := 0; k < 300 && got == nil; k++ { // the backend records once it has read to the end
+			be.mu.Lock()
+			got = be.seen[cs]
+			be.mu.Unlock()
+			if got == nil {
+				time.Sleep(10 * time.Millisecond)
+			}
+		}
+		what := fmt.Sprintf("early-answer round %d: chunked POST of %d bytes uploaded over 0.6 s; the backend answered after the first 5 body bytes and then read on", r, len(sent))
+		if got == nil {
+			e.Fail("C02:body-altered:backend-answers-before-upload-ends", what+"; it never finished reading the request", base+r, nil, nil, nil)
+		} else if !bytes.Equal(got.body, sent) {
+			e.Fail("C02:body-altered:backend-answers-before-upload-ends", fmt.Sprintf("%s; it received %d body bytes (read error %v), first difference at offset %d", what, len(got.body), got.bodyErr, firstDiffDrv(got.body, sent)), base+r, nil, len(got.body), len(sent))
+		}
+		e.Eval(fmt.Sprintf("early-answer-%d", r), true)
+		e.Count("backend-answers-before-upload-ends")
+	}
+}
+
+// reqOverlap: request bodies that overlap in time inside one agent.  One client uploads a large body slowly (it
+// pauses after the first part) while eight others send theirs; every body must arrive as sent.
+func reqOverlap(e *vh.Env, be *rawBackend, rig *e2eRig, base int) {
+	rounds := e.N(3, 30)
+	for r := 0; r < rounds; r++ {
+		if !e.Want(base+r) || e.FailedExcept("C02:user-agent-rewritten-by-request-write") {
+			continue
+		}
+		rng := e.Rng.Sub(base + r)
+		type sent struct {
+			cs   string
+			body []byte
+		}
+		var all []sent
+		var mu sync.Mutex
+		post := func(cs string, body []byte, pauseAfter int) {
+			c, err := net.Dial("tcp", fmt.Sprintf("127.0.0.1:%d", rig.proxyPort))
+			if err != nil {
+				return
+			}
+			defer c.Close()
+			c.SetDeadline(time.Now().Add(30 * time.Second))
+			fmt.Fprintf(c, "POST /overlap/%s HTTP/1.1\r\nHost: client-visible.example\r\nX-Case: %s\r\nConnection: close\r\nContent-Length: %d\r\n\r\n", cs, cs, len(body))
+			if pauseAfter > 0 && pauseAfter < len(body) {
+				c.Write(body[:pauseAfter])
+				time.Sleep(250 * time.Millisecond)
+				c.Write(body[pauseAfter:])
+			} else {
+				c.Write(body)
+			}
+			resp, err := http.ReadResponse(bufio.NewReader(c), nil)
+			if err == nil {
+				io.Copy(io.Discard, resp.Body)
+			}
+			mu.Lock()
+			all = append(all, sent{cs, body})
+			mu.Unlock()
+		}
+		var wg sync.WaitGroup
+		wg.Add(1)
+		go func() {
+			defer wg.Done()
+			post(fmt.Sprintf("ov-%d-%d-slow", e.Seed, r), rng.Sub(0).Bytes(512<<10), 64<<10)
+		}()
+		time.Sleep(60 * time.Millisecond) // the slow upload has been handed to the agent and is being forwarded
+		for k := 0; k < 8; k++ {
+			wg.Add(1)
+			go func(k int) {
+				defer wg.Done()
+				post(fmt.Sprintf("ov-%d-%d-%d", e.Seed, r, k), rng.Sub(1+k).Bytes(100<<10), 0)
+			}(k)
+		}
+		wg.Wait()
+		for _, sn := range all {
+			be.mu.Lock()
+			got := be.seen[sn.cs]
+			be.mu.Unlock()
+			if got == nil {
+				e.Fail("C02:request-lost", fmt.Sprintf("overlap round %d: request %s (%d body bytes) never reached the backend", r, sn.cs, len(sn.body)), base+r, nil, nil, nil)
+				continue
+			}
+			if got.bodyErr != nil || !bytes.Equal(got.body, sn.body) {
+				e.Fail("C02:body-altered", fmt.Sprintf("overlap round %d (one slow 512 KiB upload, eight concurrent 100 KiB uploads through one agent): request %s sent %d body bytes (sha %x), the backend received %d (sha %x, read error %v)", r, sn.cs, len(sn.body), sha256.Sum256(sn.body), len(got.body), sha256.Sum256(got.body), got.bodyErr), base+r, nil, len(got.body), len(sn.body))
+			}
+		}
+		e.Eval(fmt.Sprintf("overlap-%d", r), true)
+		e.Count("overlapping-uploads")
 	}
 }
